@@ -418,6 +418,16 @@ impl MessageBody for ScriptBody {
     }
 }
 
+/// a scripted body as a `Stream`, for `HttpResponseBuilder::streaming`
+struct ScriptBodyStream(ScriptBody);
+
+impl futures_core::Stream for ScriptBodyStream {
+    type Item = Result<Bytes, ScriptErr>;
+    fn poll_next(mut self: Pin<&mut Self>, cx: &mut Context<'_>) -> Poll<Option<Self::Item>> {
+        MessageBody::poll_next(Pin::new(&mut self.0), cx)
+    }
+}
+
 fn opt_val(line: &str, k: &str) -> Option<String> {
     match kv(line, k) {
         None | Some("-") => None,
@@ -627,6 +637,10 @@ async fn run_resp_async(line: &str, wire: bool) -> CaseResult {
     let hvary = opt_val(line, "hvary");
     let ct = opt_val(line, "ct");
     let hcl = opt_val(line, "hcl");
+    // nc=<len>: the handler calls `HttpResponseBuilder::no_chunking(len)` (Content-Length: len +
+    // the NO_CHUNKING flag); kind=streaming: `HttpResponseBuilder::streaming(..)`, which does the
+    // same on its own when a numeric Content-Length header is present
+    let nc: Option<u64> = opt_val(line, "nc").and_then(|v| v.parse().ok());
     let kind = kv(line, "kind").unwrap_or("full").to_owned();
     let toks = parse_toks(kv(line, "ev").unwrap_or(""));
     let total: usize = toks.iter().map(|t| if let Tok::Sz(n) = t { *n } else { 0 }).sum();
@@ -655,7 +669,7 @@ async fn run_resp_async(line: &str, wire: bool) -> CaseResult {
             }
         }
     }
-    let is_script = kind == "sized" || kind == "stream";
+    let is_script = kind == "sized" || kind == "stream" || kind == "streaming";
     if !is_script {
         has_err = false;
         written = if kind == "none" || bytes.is_empty() { vec![] } else { vec![bytes.clone()] };
@@ -663,11 +677,11 @@ async fn run_resp_async(line: &str, wire: bool) -> CaseResult {
     let handler_body: Vec<u8> = written.iter().flat_map(|b| b.iter().copied()).collect();
     let log = Rc::new(RefCell::new(ScriptLog::default()));
 
-    let spec = Rc::new((st, hce.clone(), hvary.clone(), ct.clone(), kind.clone(), bytes.clone(), evs, log.clone(), hcl.clone()));
+    let spec = Rc::new((st, hce.clone(), hvary.clone(), ct.clone(), kind.clone(), bytes.clone(), evs, log.clone(), hcl.clone(), nc));
     let handler = move || {
         let spec = spec.clone();
         async move {
-            let (st, hce, hvary, ct, kind, bytes, evs, log, hcl) = &*spec;
+            let (st, hce, hvary, ct, kind, bytes, evs, log, hcl, nc) = &*spec;
             let mut b = HttpResponse::build(StatusCode::from_u16(*st).unwrap());
             if let Some(v) = ct {
                 b.insert_header((header::CONTENT_TYPE, v.as_str()));
@@ -681,7 +695,13 @@ async fn run_resp_async(line: &str, wire: bool) -> CaseResult {
             if let Some(v) = hcl {
                 b.insert_header((header::CONTENT_LENGTH, v.as_str()));
             }
+            if let Some(n) = nc {
+                b.no_chunking(*n);
+            }
             match kind.as_str() {
+                "streaming" => b
+                    .streaming(ScriptBodyStream(ScriptBody { size: BodySize::Stream, evs: evs.clone(), log: log.clone() }))
+                    .map_into_boxed_body(),
                 "none" => b.body(actix_web::body::None::new()).map_into_boxed_body(),
                 "full" => b.body(bytes.clone()).map_into_boxed_body(),
                 "sized" => b
@@ -710,6 +730,7 @@ async fn run_resp_async(line: &str, wire: bool) -> CaseResult {
     let ce = get_all(header::CONTENT_ENCODING);
     let vary = get_all(header::VARY);
     let cl = get_all(header::CONTENT_LENGTH);
+    let no_chunking = !res.response().head().chunked();
     let (_, resp) = res.into_parts();
     let (_, body) = resp.into_parts();
     let size = body.size();
@@ -742,11 +763,12 @@ async fn run_resp_async(line: &str, wire: bool) -> CaseResult {
     };
     let path = if encoded { path_of(&log.borrow().trace, is_script, !bytes.is_empty()) } else { "-".to_owned() };
     let output = format!(
-        "st={} ce={} vary={} size={} {} path={} end={}",
+        "st={} ce={} vary={} size={} nc={} {} path={} end={}",
         status,
         show_list(&ce),
         show_list(&vary),
         show_size(size),
+        no_chunking as u8,
         body_str,
         path,
         col.end
@@ -765,7 +787,8 @@ async fn run_resp_async(line: &str, wire: bool) -> CaseResult {
     if !has_err && col.end == "err" {
         fails.push(("spurious-error".into(), "stream failed although the body did not".into()));
     }
-    let must_pass = hce.is_some() || matches!(st, 101 | 204 | 206) || total == 0 && kind != "stream" || kind == "none";
+    let unsized_stream = kind == "stream" || (kind == "streaming" && hcl.as_deref().and_then(|v| v.parse::<u64>().ok()).is_none());
+    let must_pass = hce.is_some() || matches!(st, 101 | 204 | 206) || total == 0 && !unsized_stream || kind == "none";
     if status == 406 {
         // the request must really exclude the unencoded representation
         if let Some(lines) = &ae {
@@ -816,8 +839,13 @@ async fn run_resp_async(line: &str, wire: bool) -> CaseResult {
             if size != BodySize::Stream {
                 fails.push(("stale-length".into(), format!("encoded body has size {:?}", size)));
             }
-            if !cl.is_empty() {
-                fails.push(("stale-length".into(), format!("content-length header {:?} on an encoded response", cl)));
+            // a Content-Length header left in the head is harmless only while chunked framing is
+            // enabled (the h1 encoder then skips it); with NO_CHUNKING set it is what goes out
+            if no_chunking {
+                fails.push((
+                    "stale-length".into(),
+                    format!("encoded response has chunked framing disabled (handler's content-length {:?} would be sent for the encoded bytes)", cl),
+                ));
             }
             if !vary.iter().any(|v| v.to_ascii_lowercase().contains("accept-encoding")) {
                 fails.push(("vary-missing".into(), format!("vary = {:?}", vary)));
@@ -849,8 +877,15 @@ async fn run_resp_async(line: &str, wire: bool) -> CaseResult {
             let want_size = match kind.as_str() {
                 "none" => BodySize::None,
                 "stream" => BodySize::Stream,
+                "streaming" => match hcl.as_deref().and_then(|v| v.parse::<u64>().ok()) {
+                    Some(n) => BodySize::Sized(n),
+                    None => BodySize::Stream,
+                },
                 _ => BodySize::Sized(total as u64),
             };
+            if no_chunking != (nc.is_some() || (kind == "streaming" && hcl.as_deref().and_then(|v| v.parse::<u64>().ok()).is_some())) && status != 406 {
+                fails.push(("passthrough-head-changed".into(), format!("NO_CHUNKING flag became {}", no_chunking)));
+            }
             if size != want_size {
                 fails.push(("passthrough-size-changed".into(), format!("{:?} → {:?}", want_size, size)));
             }
@@ -977,12 +1012,6 @@ where
         if w.complete { "done" } else { "trunc" }
     );
     // ---- oracle: what the peer can see
-    if !w.complete {
-        fails.push(("wire-incomplete".into(), "message framing not completed before close".into()));
-    }
-    if w.trailing > 0 {
-        fails.push(("wire-trailing-bytes".into(), format!("{} bytes after the message", w.trailing)));
-    }
     if cl.len() > 1 || (w.chunked && !cl.is_empty()) {
         fails.push(("stale-length".into(), format!("content-length {:?} with chunked={}", cl, w.chunked)));
     }
@@ -990,6 +1019,12 @@ where
         if v.parse::<usize>().ok() != Some(w.body.len()) {
             fails.push(("stale-length".into(), format!("content-length {} but {} body bytes sent", v, w.body.len())));
         }
+    }
+    if !w.complete {
+        fails.push(("wire-incomplete".into(), "message framing not completed before close".into()));
+    }
+    if w.trailing > 0 {
+        fails.push(("wire-trailing-bytes".into(), format!("{} bytes after the message", w.trailing)));
     }
     if encoded {
         if let Some(lines) = ae {
@@ -1000,7 +1035,9 @@ where
         } else {
             fails.push(("encoded-without-accept-encoding".into(), ce[0].clone()));
         }
-        if matches!(st, 204 | 206) || total == 0 && kind != "stream" || kind == "none" {
+        let unsized_stream = kind == "stream"
+            || (kind == "streaming" && opt_val(_line, "hcl").and_then(|v| v.parse::<u64>().ok()).is_none());
+        if matches!(st, 204 | 206) || total == 0 && !unsized_stream || kind == "none" {
             fails.push(("must-not-encode".into(), format!("status {} re-encoded", st)));
         }
         if let Some(v) = hvary {
@@ -1353,6 +1390,53 @@ fn gen(ctx: &Ctx) -> Vec<String> {
             "wire ae={ae} st={st} hce={hce} hvary=- ct={} hcl={hcl} kind={kind} body={body} ev={}",
             rng.pick(CTS),
             if ev.is_empty() { "-".to_owned() } else { ev.join(",") }
+        ));
+    }
+    // ---- handlers that declare the length of their un-encoded body: `no_chunking(len)` on the
+    // builder, or a Content-Length header on a `streaming()` response (the builder then disables
+    // chunking itself).  Encoded ⇒ the flag must be reset, else the stale length goes out.
+    for ae in ["gzip", "br", "deflate", "zstd", "identity", "-", "identity;q=0"] {
+        for (kind, ev, n) in [("stream", "9000", 9000usize), ("sized", "10,p,1024,7", 1041), ("full", "3000", 3000), ("stream", "1,p,1", 2), ("none", "-", 0)] {
+            for st in [200u16, 206] {
+                cases.push(format!("wire ae={ae} st={st} hce=- hvary=- ct=- hcl=- nc={n} kind={kind} body=c7 ev={ev}"));
+                cases.push(format!("resp ae={ae} st={st} hce=- hvary=- ct=- nc={n} kind={kind} body=c7 ev={ev} j=1"));
+            }
+        }
+        for (ev, n) in [("9000", "9000"), ("10,p,1024,7", "1041"), ("5,5", "-"), ("-", "0")] {
+            cases.push(format!("wire ae={ae} st=200 hce=- hvary=- ct=- hcl={n} kind=streaming body=c7 ev={ev}"));
+            cases.push(format!("wire ae={ae} st=200 hce=- hvary=origin ct=text/plain hcl={n} kind=streaming body=r7 ev={ev}"));
+            cases.push(format!("resp ae={ae} st=200 hce=- hvary=- ct=- hcl={n} kind=streaming body=c7 ev={ev} j=0"));
+        }
+        cases.push(format!("wire ae={ae} st=200 hce=gzip hvary=- ct=- hcl=- nc=9000 kind=stream body=c7 ev=9000"));
+        cases.push(format!("wire ae={ae} st=200 hce=- hvary=- ct=image/png hcl=9000 kind=streaming body=c7 ev=9000"));
+    }
+    for _ in 0..ctx.budget(80) {
+        let ae = if rng.chance(1, 8) { "-".to_owned() } else { gen_ae(&mut rng) };
+        let kind = *rng.pick::<&str>(&["stream", "sized", "full", "streaming", "streaming"]);
+        let nchunks = if kind == "full" { 1 } else { rng.range(1, 4) };
+        let mut ev: Vec<String> = Vec::new();
+        let mut total = 0usize;
+        for _ in 0..nchunks {
+            while rng.chance(1, 4) {
+                ev.push("p".into());
+            }
+            let n = match rng.below(3) {
+                0 => rng.range(1, 20),
+                1 => *rng.pick::<usize>(&[1023, 1024, 1025]),
+                _ => rng.range(1, 20000),
+            };
+            total += n;
+            ev.push(n.to_string());
+        }
+        let declared = if kind == "streaming" { format!("hcl={total}") } else { format!("hcl=- nc={total}") };
+        let which = if rng.chance(1, 2) { "wire" } else { "resp" };
+        cases.push(format!(
+            "{which} ae={ae} st={} hce={} hvary=- ct={} {declared} kind={kind} body=c{} ev={} j=1",
+            rng.pick::<u16>(&[200, 200, 201, 206, 404]),
+            rng.pick::<&str>(&["-", "-", "-", "gzip"]),
+            rng.pick::<&str>(&["-", "text/plain", "image/png", "application/json"]),
+            rng.below(40),
+            ev.join(",")
         ));
     }
     // ---- req: every coding × sizes × chunkings of the compressed stream
